@@ -94,6 +94,14 @@ Fixpoint strs_eqb (a b : list str) : bool :=
   | _, _ => false
   end.
 
+ (* Python's list comparison on lists of str (Namespace._namespace_components): lexicographic by component *)
+Fixpoint strs_leb (a b : list str) : bool :=
+  match a, b with
+  | [], _ => true
+  | _ :: _, [] => false
+  | x :: a', y :: b' => if str_eqb x y then strs_leb a' b' else str_leb x y
+  end.
+
 (* ---------------------------------------------------------------------------------------------- *)
 (* inputs                                                                                          *)
 (* ---------------------------------------------------------------------------------------------- *)
@@ -190,6 +198,8 @@ Record src_facts := {
   sf_platform_gated : bool;    (* _create_platform_version: everything but python_version under `if embed_auditing_info` *)
   sf_clock_only_now_utc : bool;(* the only clock read is `self._env.now_utc = datetime.datetime.utcnow()` *)
   sf_audit_threaded : bool;    (* generate_all passes embed_auditing_info to update_nunavut_globals, which sets the flag *)
+  sf_nested_sorted : bool;     (* Namespace.get_nested_namespaces returns sorted(set, key = the attribute __eq__ compares) and is the
+                                  only iteration of _nested_namespaces (9b93945) *)
   sf_natsort_total : bool;     (* html _natural_sort: the sort key ends in the exact name (ties broken), see gen_sorts *)
   sf_template_sets_pure : bool;(* DSDLTemplateLoader.get_template_sets reports package names/versions only, no file-system path *)
   sf_gzip_mtime_fixed : bool;  (* py filter_pickle: gzip.compress(..., mtime=0) -- the gzip header carries no clock (F-PY-GZIP) *)
@@ -198,7 +208,7 @@ Record src_facts := {
 Definition src_facts_ok (f : src_facts) : bool :=
   sf_inc_sorted f && sf_imports_sorted f && sf_templates_sorted f && sf_platform_gated f
   && sf_clock_only_now_utc f && sf_audit_threaded f && sf_gzip_mtime_fixed f
-  && sf_natsort_total f && sf_template_sets_pure f.
+  && sf_natsort_total f && sf_template_sets_pure f && sf_nested_sorted f.
 
 Definition kind_eqb (a b : akind) : bool :=
   match a, b with
@@ -229,6 +239,8 @@ Definition lang_clean_but_pickle (f : src_facts) (tbl : list site) (l : lang) : 
 
 (* sorted()/list.sort() calls that take a key= : canonical only if the key has a tie-breaker (SortKeyed fact) *)
 Inductive sort_site :=
+| SortNestedNs        (* _namespace.py get_nested_namespaces: sorted(self._nested_namespaces, key=lambda n: n._namespace_components);
+                         the key is the attribute Namespace.__eq__ compares, so distinct set members have distinct keys *)
 | SortHtmlNatural     (* lang/html/__init__.py _natural_sort: sorted(instance, key=natural_sort_key) *)
 | SortUnknown.
 
@@ -308,9 +320,11 @@ Section Run.
   Definition loop2_order (e : env) (I : list tydecl) : list nsname :=
     e_shuffle e _ (site_no SetNsIndex) ns_str (ns_index I).
 
-  (* insertion order into parent._nested_namespaces, then iteration order of that set *)
+  (* insertion order into parent._nested_namespaces, then iteration order of that set; get_nested_namespaces() returns it
+     through sorted(key=_namespace_components) when the regenerated fact says so (9b93945), raw before *)
   Definition nested (e : env) (I : list tydecl) (p : nsname) : list nsname :=
-    e_shuffle e _ (site_no SetNestedIter) ns_str (filter (is_child p) (loop2_order e I)).
+    let it := e_shuffle e _ (site_no SetNestedIter) ns_str (filter (is_child p) (loop2_order e I)) in
+    if sf_nested_sorted sf then gsort strs_leb it else it.
 
   Definition types_of (I : list tydecl) (n : nsname) : list tydecl :=
     filter (fun d => strs_eqb (k_ns (d_key d)) n) I.
@@ -537,17 +551,21 @@ Definition tbl_gated_only : list site :=
 
 Definition facts_all_true : src_facts :=
   {| sf_inc_sorted := true; sf_imports_sorted := true; sf_templates_sorted := true; sf_platform_gated := true;
-     sf_clock_only_now_utc := true; sf_audit_threaded := true; sf_natsort_total := true; sf_template_sets_pure := true; sf_gzip_mtime_fixed := true |}.
+     sf_clock_only_now_utc := true; sf_audit_threaded := true; sf_nested_sorted := true; sf_natsort_total := true; sf_template_sets_pure := true; sf_gzip_mtime_fixed := true |}.
 Definition facts_natsort_ties : src_facts :=
   {| sf_inc_sorted := true; sf_imports_sorted := true; sf_templates_sorted := true; sf_platform_gated := true;
-     sf_clock_only_now_utc := true; sf_audit_threaded := true; sf_natsort_total := false; sf_template_sets_pure := true;
+     sf_clock_only_now_utc := true; sf_audit_threaded := true; sf_nested_sorted := false; sf_natsort_total := false; sf_template_sets_pure := true;
      sf_gzip_mtime_fixed := true |}.
 Definition facts_tmplsets_paths : src_facts :=
   {| sf_inc_sorted := true; sf_imports_sorted := true; sf_templates_sorted := true; sf_platform_gated := true;
-     sf_clock_only_now_utc := true; sf_audit_threaded := true; sf_natsort_total := true; sf_template_sets_pure := false;
+     sf_clock_only_now_utc := true; sf_audit_threaded := true; sf_nested_sorted := true; sf_natsort_total := true; sf_template_sets_pure := false;
      sf_gzip_mtime_fixed := true |}.
 Definition tbl_tmplsets : list site :=
   [ {| s_lang := LCpp; s_group := GType; s_kind := KTmplSets; s_gated := false; s_line := 34 |} ].
+Definition facts_nested_unsorted : src_facts :=
+  {| sf_inc_sorted := true; sf_imports_sorted := true; sf_templates_sorted := true; sf_platform_gated := true;
+     sf_clock_only_now_utc := true; sf_audit_threaded := true; sf_nested_sorted := false; sf_natsort_total := true;
+     sf_template_sets_pure := true; sf_gzip_mtime_fixed := true |}.
 Definition facts_inc_unsorted : src_facts :=
   {| sf_inc_sorted := false; sf_imports_sorted := true; sf_templates_sorted := true; sf_platform_gated := true;
-     sf_clock_only_now_utc := true; sf_audit_threaded := true; sf_natsort_total := true; sf_template_sets_pure := true; sf_gzip_mtime_fixed := true |}.
+     sf_clock_only_now_utc := true; sf_audit_threaded := true; sf_nested_sorted := true; sf_natsort_total := true; sf_template_sets_pure := true; sf_gzip_mtime_fixed := true |}.
